@@ -35,7 +35,7 @@ def _giv_args(bound):
 def run(tier):
     from contracts import c16
     cr = CheckRun("C16", tier, "other", EXPLANATION, "DESIGN §4 C16")
-    cr.contracts(["contracts.c16", "contracts.c15", "contracts.c03", "contracts.c16b", "contracts.c14b"])
+    cr.contracts(["contracts.c16", "contracts.c15", "contracts.c03", "contracts.c16b", "contracts.c14b", "contracts.cdispatch"])
     bound = 6 if tier == "quick" else 12
     cr.bounded_check(run_contract_enum, "get_iteration_values-box", c16.giv_contract, _giv_args(bound),
                      f"all (start, stop, step) in [-{bound},{bound}]^2 x ([-{bound},{bound}] + default), list iterators, variable bounds through a resolver")
